@@ -4,7 +4,6 @@ import (
 	"fmt"
 	"gopkg.in/yaml.v3"
 	"os"
-	"path/filepath"
 	"sync"
 	"time"
 )
@@ -64,7 +63,16 @@ func (bf *BanFile) Add(ip string, until *time.Time) error {
 		return fmt.Errorf("marshal yaml: %v", err)
 	}
 
-	err = os.WriteFile(filepath.Join(bf.filePath), out, 0644)
+	// Write a temporary file and rename it into place: rewriting the ban list in place would truncate it
+	// first, and a crash in between leaves an empty file on which the server refuses to start.
+	tempFilePath := bf.filePath + ".tmp"
+
+	err = os.WriteFile(tempFilePath, out, 0644)
+	if err != nil {
+		return fmt.Errorf("write file: %v", err)
+	}
+
+	err = os.Rename(tempFilePath, bf.filePath)
 	if err != nil {
 		return fmt.Errorf("write file: %v", err)
 	}
